@@ -23,7 +23,7 @@ InterCfg inter_cfg_of(const Case &c) {
 }
 
 Case gen_inter(const std::string &prop, Rng &r, const Tier &t,
-               const std::vector<std::string> &doms) {
+               const std::vector<std::string> &doms, bool force_recursion = false) {
   Case c;
   c.property = prop;
   c.domain = doms[r.below(doms.size())];
@@ -32,6 +32,8 @@ Case gen_inter(const std::string &prop, Rng &r, const Tier &t,
       (di->caps & CAP_BOOL) && r.chance(2, 3) ? GenConfig::NUMBOOL : GenConfig::NUM;
   GenConfig gc = random_gen_config(r, prof, true);
   restrict_for_domain(gc, *di);
+  if (force_recursion)
+    gc.recursion = true;
   gc.max_blocks = std::min(gc.max_blocks, 5);
   gc.n_asserts = std::max(gc.n_asserts, 1);
   c.prog = generate_program(r, gc);
@@ -559,6 +561,19 @@ PropertyRegistrar reg_c09({"C09", "sim_prog",
 PropertyRegistrar reg_c10({"C10", "sim_prog", gen_c10, check_c10, inter_domains});
 PropertyRegistrar reg_c02i({"C02i", "sim_prog", gen_c02i, check_c02i, inter_domains});
 PropertyRegistrar reg_c05i({"C05i", "sim_prog", gen_c05i, check_c05i, inter_domains});
+
+// C05j: the same check on recursive call graphs with the precise handling of recursion
+// (the fixpoint over the entry/exit values of recursive functions is where the
+// inter-procedural analysis can diverge)
+Case gen_c05j(Rng &r, const Tier &t, const std::vector<std::string> &doms) {
+  Case c = gen_inter("C05", r, t, doms, true);
+  c.params.set("part", "termination_inter");
+  c.params.set("analyzer", "topdown");
+  c.params.set("analyze_recursive", 1);
+  c.n_execs = 0;
+  return c;
+}
+PropertyRegistrar reg_c05j({"C05j", "sim_prog", gen_c05j, check_c05i, inter_domains});
 
 } // namespace
 } // namespace sim
